@@ -463,6 +463,8 @@ func cmdCheck(args []string) {
 		}
 		for k, n := range r.Unsupported {
 			rep.Problems = append(rep.Problems, fmt.Sprintf("INCOMPLETE x%d %s", n, k))
+			// not a verdict on the property: the stated bound was only partly explored (also in the evidence)
+			lines = append(lines, fmt.Sprintf("INCOMPLETE harness=%s %d path(s) not explored to the end: %s", h.ID, n, k))
 		}
 		rb := builds[pkgKey(h.Dir)]
 		if rb == nil || rb.err != "" {
